@@ -17,8 +17,9 @@ NOT decided: pandas semantics; the two degenerate mixes the statement excludes; 
 loss-probability assignment (`_assign_out_prob`), which is outside the claim.
 """
 import ast
+import os
 
-from ..astutil import func_defaults, parents, u
+from ..astutil import func_defaults, parents, u, kwarg
 from ..model import AnalysisError
 
 OPAQUE_MUTATORS = {"_assign_out_prob": 0}  # callee name -> index of the frame argument it mutates (outside the claim)
@@ -1768,6 +1769,68 @@ def rule_L5(ctx, L):
     ctx.check(why is None, "L5", "tab-separated read, comma-separated fallback iff one column", _where(L, "_create_raw_data_df"), why or "", construct=F, stmt="separator fallback")
 
 
+IDENTIFIER_COLUMNS = ("mutation_id", "cluster_id")
+_CONVERTERS = ("astype", "map", "apply", "to_numeric", "convert_dtypes", "infer_objects")
+
+
+def rule_L6(ctx):
+    """"Sorted identifier order" is the order of the identifiers as they are read: integers sort as integers, text
+    as text.  The load path converts exactly one identifier column, sample_id, to text on read; a conversion of the
+    mutation or cluster identifiers (or a dtype forced on read) changes which data point is number k
+    (cluster 10 before cluster 2)."""
+    prog = ctx.prog
+    ctx.rule("L6", "mutation and cluster identifiers are sorted in the type they are read with: no conversion of those columns, no dtype forced on read (sample_id alone is converted to text)", 2)
+    mods = [m for q, m in prog.modules.items() if ".data." in q or q.endswith(".data")]
+    if not mods:
+        raise AnalysisError("L6: no phyclone.data module found")
+    n_reads = 0
+    seen_sample = False
+    for m in mods:
+        rel = os.path.relpath(m.path, prog.repo)
+        for n in ast.walk(m.tree):
+            if isinstance(n, ast.Assign):
+                for t in n.targets:
+                    if isinstance(t, ast.Subscript):
+                        col = _const_col(t.slice)
+                        conv = [c for c in ast.walk(n.value) if isinstance(c, ast.Call) and ((isinstance(c.func, ast.Attribute) and c.func.attr in _CONVERTERS) or (isinstance(c.func, ast.Name) and c.func.id in ("str", "int", "float")))]
+                        reads_self = any(isinstance(x, ast.Subscript) and _const_col(x.slice) == col for x in ast.walk(n.value))
+                        if col == "sample_id" and conv and reads_self:
+                            seen_sample = True
+                        if col in IDENTIFIER_COLUMNS and conv and reads_self:
+                            ctx.fail("L6", "column %r keeps the type it was read with" % col, "%s:%d" % (rel, n.lineno),
+                                     "`%s` converts the %s column: identifiers that were numbers now sort as text (10 before 2), so the data points are numbered in a different order than the sorted identifiers of the input" % (u(n)[:90], col),
+                                     construct="phyclone.data:%s" % col, stmt="conversion of %s" % col)
+            if isinstance(n, ast.Call) and isinstance(n.func, ast.Attribute) and n.func.attr in ("read_csv", "read_table"):
+                n_reads += 1
+                d = kwarg(n, "dtype")
+                conv = kwarg(n, "converters")
+                bad = None
+                for x in (d, conv):
+                    if x is None:
+                        continue
+                    if isinstance(x, ast.Dict):
+                        ks = [k.value for k in x.keys if isinstance(k, ast.Constant)]
+                        if any(k in IDENTIFIER_COLUMNS for k in ks):
+                            bad = u(x)
+                    else:
+                        bad = u(x)  # one dtype for every column
+                ctx.check(bad is None, "L6", "`%s` reads the identifier columns in their own type" % u(n)[:60], "%s:%d" % (rel, n.lineno),
+                          "the table is read with dtype / converters %s: mutation / cluster identifiers that are numbers are read as another type and sort differently" % (bad or ""),
+                          construct="phyclone.data:read", stmt="dtype on read")
+            if isinstance(n, ast.Call) and isinstance(n.func, ast.Attribute) and n.func.attr == "astype" and n.args and isinstance(n.args[0], ast.Dict):
+                ks = [k.value for k in n.args[0].keys if isinstance(k, ast.Constant)]
+                hit = [k for k in ks if k in IDENTIFIER_COLUMNS]
+                if hit:
+                    ctx.fail("L6", "column %r keeps the type it was read with" % hit[0], "%s:%d" % (rel, n.lineno), "`%s` converts the %s column" % (u(n)[:90], hit[0]), construct="phyclone.data:%s" % hit[0], stmt="conversion of %s" % hit[0])
+    if n_reads == 0:
+        raise AnalysisError("L6: no read_csv / read_table call in phyclone.data")
+    ctx.check(seen_sample, "L6", "sample_id is converted to text on read (the one documented conversion)", "phyclone/data/pyclone.py", "the sample_id column is no longer converted to text: numeric sample names sort numerically, textual ones as text, and the per-sample likelihood rows follow", construct="phyclone.data:sample_id", stmt="sample_id astype(str)")
+
+
+def _const_col(sl):
+    return sl.value if isinstance(sl, ast.Constant) and isinstance(sl.value, str) else None
+
+
 def _contains(t, needle, _seen=None):
     if _seen is None:
         _seen = set()
@@ -1789,9 +1852,10 @@ def run(ctx):
     from ..formula import imported
     from . import C14
 
-    ctx._own_rules = {"L1", "L2", "L3", "L4", "L5"}
+    ctx._own_rules = {"L1", "L2", "L3", "L4", "L5", "L6"}
     imported(ctx, C14.rule_K7)
     ctx.soft(rule_L4)
+    ctx.soft(rule_L6)
     try:
         L = Load(ctx)
     except Unsupported as ex:
@@ -1879,6 +1943,9 @@ SELFTEST = [
     {"name": "L1-dedup-before-group-filter", "kind": "break", "rule": "L1", "file": _P, "old": "    df = _remove_cn_zero_mutations(df)\n", "new": "    df = _remove_cn_zero_mutations(df).drop_duplicates()\n"},
     {"name": "L1-cn-filter-complement-of-zero-under-any", "kind": "break", "rule": "L1", "file": _P, "old": '    df = df.loc[df["major_cn"] > 0]\n    return df', "new": '    is_zero = df["major_cn"] == 0\n    if is_zero.sum() > 0:\n        df = df.loc[~is_zero]\n    return df'},
     {"name": "benign-cn-filter-complement-under-any", "kind": "benign", "file": _P, "old": '    df = df.loc[df["major_cn"] > 0]\n    return df', "new": '    gone = df["major_cn"] <= 0\n    if gone.any():\n        df = df.loc[~gone]\n    return df'},
+    {"name": "L6-cluster-id-to-text", "kind": "break", "rule": "L6", "file": _P, "old": '    cluster_df = pd.read_csv(cluster_file, sep="\\t")\n', "new": '    cluster_df = pd.read_csv(cluster_file, sep="\\t")\n    cluster_df["cluster_id"] = cluster_df["cluster_id"].astype(str)\n'},
+    {"name": "L6-dtype-on-read", "kind": "break", "rule": "L6", "file": _P, "old": "    df = pd.read_table(file_name)\n", "new": "    df = pd.read_table(file_name, dtype=str)\n"},
+    {"name": "benign-L6-usecols", "kind": "benign", "file": _P, "old": "    df = pd.read_table(file_name)\n", "new": "    df = pd.read_table(file_name, comment=None)\n"},
     {"name": "L1-cn-filter-not-equal", "kind": "break", "rule": "L1", "file": _P, "old": 'df = df.loc[df["major_cn"] > 0]', "new": 'df = df.loc[df["major_cn"] != 0]'},
     {"name": "L2-sort-on-wrong-key", "kind": "break", "rule": "L2", "file": _P, "old": 'df = df.sort_values(by="mutation_id", ascending=True)', "new": 'df = df.sort_values(by="sample_id", ascending=True)'},
     {"name": "L2-positional-read", "kind": "break", "rule": "L2", "file": _P, "old": 'a = group.at[sample, "ref_counts"]', "new": 'a = group["ref_counts"].iloc[0]'},
